@@ -126,8 +126,6 @@ def run(m: Model, r: Report, tier: str) -> None:
             r.check(mutex not in acq, "R4", f"{q}#entered-locked",
                     f"is only called with the mutex held but acquires it again via {' -> '.join(acq.get(mutex, []))}: self-deadlock",
                     loc=f.loc)
-    if n_regions < 2:
-        raise AnalysisError(f"only {n_regions} `async with self.mutex` regions found")
 
     # ---------------------------------------------------------------- R5
     base_req = m.require_function(f"{CLIENT}.UDSClient._request")
